@@ -28,6 +28,7 @@ Check c08_direct_receive_intact_only_if_fits : forall d c, (length d <= S c)%nat
 Check c08_write_is_one_datagram : forall frame, frame <> [] ->
   fst (awrite frame) = [IBytes frame] /\
   write_all [WAccept (pred (snd (awrite frame)))] frame = (frame, WOk, []).
+Check c08_model_state_is_the_struct : state_tied = true.
 Print Assumptions c08_session_intact.
 Print Assumptions c08_adaptor_loses_nothing.
 Print Assumptions c08_adaptor_drains.
@@ -35,3 +36,4 @@ Print Assumptions c08_scratch_holds_max_datagram.
 Print Assumptions c08_direct_receive_refuted.
 Print Assumptions c08_direct_receive_intact_only_if_fits.
 Print Assumptions c08_write_is_one_datagram.
+Print Assumptions c08_model_state_is_the_struct.
